@@ -212,8 +212,10 @@ Lemma step_other ck m o : is_update o = false ->
   cf_rates (m_cfg (fst (step ck m o))) = cf_rates (m_cfg m) /\
   names_of (m_cfg (fst (step ck m o))) = names_of (m_cfg m).
 Proof.
-  intro H. destruct o; try discriminate H; unfold step.
+  intro H. destruct o; try discriminate H; unfold step, set_date_rule, bind.
   all: try (split; reflexivity).
+  all: try (match goal with |- context [tokenise_patterns ?a ?b ?c ?d ?e] =>
+              destruct (tokenise_patterns a b c d e) eqn:?; split; reflexivity end).
   all: repeat match goal with
        | |- context [match ?x with _ => _ end] => destruct x eqn:?; try (split; reflexivity)
        end.
